@@ -12,7 +12,7 @@ use std::path::{Path, PathBuf};
 use std::str::FromStr;
 
 use bytes::Bytes;
-use routinator::config::{Config, FilterPolicy};
+use routinator::config::{Config, FallbackPolicy, FilterPolicy};
 use routinator::engine::Engine;
 use routinator::metrics::Metrics;
 use routinator::payload::{PayloadSnapshot, ValidationReport};
@@ -21,6 +21,7 @@ use rpki::repository::x509::Time;
 use rpki::uri;
 use serde::{Deserialize, Serialize};
 
+use crate::httpsrv::{HttpsServer, Resp, RrdpServer};
 use crate::pay::{MAspa, MItem, MKey, MOrigin, MSet};
 use crate::rpkigen::{self as gen, Issuer, Res};
 
@@ -40,11 +41,22 @@ pub struct Cfg {
     pub max_depth: usize,
     pub threads: usize,
     pub dirty: bool,
+    /// `rrdp-fallback` policy: 0 never, 1 stale (routinator's default), 2 new. Only meaningful when
+    /// some CA is published through RRDP.
+    #[serde(default = "default_rrdp_fallback", skip_serializing_if = "is_default_rrdp_fallback")]
+    pub rrdp_fallback: u8,
+}
+
+fn default_rrdp_fallback() -> u8 {
+    1
+}
+fn is_default_rrdp_fallback(x: &u8) -> bool {
+    *x == 1
 }
 
 impl Default for Cfg {
     fn default() -> Self {
-        Cfg { strict: false, stale: 0, unsafe_vrps: 2, limit_v4: None, limit_v6: None, bgpsec: true, aspa: true, max_depth: 32, threads: 2, dirty: false }
+        Cfg { strict: false, stale: 0, unsafe_vrps: 2, limit_v4: None, limit_v6: None, bgpsec: true, aspa: true, max_depth: 32, threads: 2, dirty: false, rrdp_fallback: 1 }
     }
 }
 
@@ -153,6 +165,10 @@ pub struct Ca {
     /// (`<parent manifest URI>/`); nothing is published for such a CA
     #[serde(default)]
     pub sia_under_parent_mft: bool,
+    /// index of the RRDP repository this CA is (also) published through: its certificate then
+    /// carries rpkiNotify `https://rrdp{r}.rpki.test/rrdp/notification.xml` next to the rsync SIA
+    #[serde(default, skip_serializing_if = "Option::is_none")]
+    pub rrdp: Option<usize>,
 }
 
 #[derive(Serialize, Deserialize, Clone, Debug, PartialEq, Eq)]
@@ -174,6 +190,9 @@ pub struct Step {
     /// 3 expired certificate with the right key, 4 nothing
     #[serde(default)]
     pub ta_serve: Vec<(usize, usize, u8)>,
+    /// RRDP repositories whose notification file answers HTTP 500 in this run
+    #[serde(default, skip_serializing_if = "Vec::is_empty")]
+    pub fail_rrdp: Vec<usize>,
 }
 
 #[derive(Serialize, Deserialize, Clone, Debug, PartialEq, Eq)]
@@ -212,6 +231,26 @@ pub fn cert_uri(sc: &Scenario, ca: usize) -> uri::Rsync {
         Some(p) => ca_dir_uri(sc, p).join(format!("ca{}.cer", ca).as_bytes()).unwrap(),
         None => uri::Rsync::from_string(format!("{}ta{}.cer", module_uri(sc.cas[ca].module), ca)).unwrap(),
     }
+}
+
+/// Host name of RRDP repository `r`.
+pub fn rrdp_host(r: usize) -> String {
+    format!("rrdp{}.rpki.test", r)
+}
+/// rpkiNotify URI of RRDP repository `r`.
+pub fn rrdp_notify_uri(r: usize) -> uri::Https {
+    uri::Https::from_string(format!("https://{}/rrdp/notification.xml", rrdp_host(r))).unwrap()
+}
+/// rpkiNotify URI on the certificate of CA `ca` (None = rsync only).
+pub fn ca_notify_uri(sc: &Scenario, ca: usize) -> Option<uri::Https> {
+    sc.cas[ca].rrdp.map(rrdp_notify_uri)
+}
+/// RRDP repositories used by some CA of the scenario.
+pub fn rrdp_repos(sc: &Scenario) -> BTreeSet<usize> {
+    sc.cas.iter().filter_map(|c| c.rrdp).collect()
+}
+pub fn uses_rrdp(sc: &Scenario) -> bool {
+    sc.cas.iter().any(|c| c.rrdp.is_some())
 }
 
 /// Number of TAL URIs of a root.
@@ -375,6 +414,10 @@ pub struct World {
     pub ca_certs: HashMap<usize, Bytes>,
     pub points: HashMap<(usize, usize), IssuedPoint>,
     pub rsync_bin: PathBuf,
+    /// in-harness HTTPS server (only when some CA is published through RRDP)
+    pub https: Option<HttpsServer>,
+    /// publisher model per RRDP repository
+    pub rrdp: BTreeMap<usize, RrdpServer>,
 }
 
 fn router_asns(ca: usize, v: usize, k: usize, obj: &Obj) -> Vec<(u32, u32)> {
@@ -391,7 +434,13 @@ impl World {
     pub fn new(sc: &Scenario, scratch_base: &Path) -> World {
         let dir = tempfile::Builder::new().prefix("w-").tempdir_in(scratch_base).expect("world dir");
         let rsync_bin = std::env::current_exe().expect("exe").parent().unwrap().join("rvrsync");
-        let mut w = World { sc: sc.clone(), now: Time::now(), dir, ca_certs: HashMap::new(), points: HashMap::new(), rsync_bin };
+        let mut w = World { sc: sc.clone(), now: Time::now(), dir, ca_certs: HashMap::new(), points: HashMap::new(), rsync_bin, https: None, rrdp: BTreeMap::new() };
+        if uses_rrdp(sc) {
+            w.https = Some(HttpsServer::start());
+            for r in rrdp_repos(sc) {
+                w.rrdp.insert(r, RrdpServer::new(&rrdp_host(r), "rrdp", 1 + r as u64));
+            }
+        }
         for d in ["srv", "cache", "tals"] {
             std::fs::create_dir_all(w.dir.path().join(d)).unwrap();
         }
@@ -426,8 +475,9 @@ impl World {
             let val = gen::validity(self.now, nb, na);
             let dir = ca_dir_uri(&sc, i);
             let mft = mft_uri(&sc, i);
+            let notify = ca_notify_uri(&sc, i);
             let bytes = match ca.parent {
-                None => gen::issue_ta(ca.key, &res, val, &dir, &mft, None, 1),
+                None => gen::issue_ta(ca.key, &res, val, &dir, &mft, notify.as_ref(), 1),
                 Some(p) => {
                     let issuer = self.issuer(p);
                     if ca.cert_fault == Some(CertFault::Overclaim) {
@@ -462,7 +512,7 @@ impl World {
                         val,
                         Some(&dir),
                         mft_opt,
-                        None,
+                        notify.as_ref(),
                         5000 + i as u128,
                         if ca.cert_fault == Some(CertFault::WrongCrlUri) { Some(&wrong_crl) } else { None },
                     );
@@ -724,6 +774,100 @@ impl World {
             let _ = std::fs::create_dir_all(srv.join(host(*m)));
             std::fs::write(srv.join(host(*m)).join("repo.fail"), b"").unwrap();
         }
+        self.publish_rrdp(step);
+    }
+
+    /// What RRDP repository `r` must offer in `step`: the union of the published files of its CAs
+    /// under their rsync URIs.
+    pub fn rrdp_content(&mut self, step: &Step, r: usize) -> BTreeMap<String, Bytes> {
+        let sc = self.sc.clone();
+        let mut want = BTreeMap::new();
+        for (i, ca) in sc.cas.iter().enumerate() {
+            if ca.rrdp != Some(r) || ca.versions.is_empty() || ca.sia_under_parent_mft {
+                continue;
+            }
+            let v = step.publish.get(i).copied().unwrap_or(0).min(ca.versions.len() - 1);
+            let dir = ca_dir_uri(&sc, i);
+            for (name, data) in self.point(i, v).files.iter() {
+                want.insert(format!("{}{}", dir, name), data.clone());
+            }
+        }
+        want
+    }
+
+    /// Brings every RRDP repository to the step's content through the publisher operations (one new
+    /// serial with a delta per step in which something changed) and puts the files on the HTTPS
+    /// server; repositories in `step.fail_rrdp` answer 500 for their notification file.
+    fn publish_rrdp(&mut self, step: &Step) {
+        if self.https.is_none() {
+            return;
+        }
+        let repos: Vec<usize> = self.rrdp.keys().copied().collect();
+        for r in repos {
+            let want = self.rrdp_content(step, r);
+            let server = self.rrdp.get_mut(&r).unwrap();
+            let mut changes: Vec<(String, Option<Bytes>)> = Vec::new();
+            for (uri, data) in &want {
+                if server.objects.get(uri) != Some(data) {
+                    changes.push((uri.clone(), Some(data.clone())));
+                }
+            }
+            for uri in server.objects.keys() {
+                if !want.contains_key(uri) {
+                    changes.push((uri.clone(), None));
+                }
+            }
+            if !changes.is_empty() {
+                server.apply(&changes);
+            }
+            let https = self.https.as_ref().unwrap();
+            server.install(https);
+            if step.fail_rrdp.contains(&r) {
+                https.set(&server.host, &server.notify_path(), Resp::status(500));
+            }
+        }
+    }
+
+    /// Damages what RRDP repository `r` offers (after `publish`): 0 notification answers 500,
+    /// 1 snapshot and delta files are garbage, 2 the notification lists wrong hashes for the
+    /// snapshot and every delta, 3 the snapshot is cut off in the middle of the transfer,
+    /// 4 every request for the host answers 404.
+    pub fn sabotage_rrdp(&self, r: usize, kind: u8) {
+        let (Some(https), Some(server)) = (self.https.as_ref(), self.rrdp.get(&r)) else { return };
+        match kind % 5 {
+            0 => https.set(&server.host, &server.notify_path(), Resp::status(500)),
+            1 => {
+                https.set(&server.host, &server.snapshot_path(), Resp::ok(b"<snapshot garbage".to_vec()));
+                for d in &server.deltas {
+                    https.set(&server.host, &server.delta_path(d.serial), Resp::ok(b"garbage garbage".to_vec()));
+                }
+            }
+            2 => {
+                let wrong = crate::httpsrv::sha256_hex(b"something else");
+                let deltas: Vec<(u64, String, String)> = server.delta_list().into_iter().rev().map(|(s, u, _)| (s, u, wrong.clone())).collect();
+                let xml = crate::httpsrv::render_notification(&server.session, server.serial, &server.abs(&server.snapshot_path()), &wrong, &deltas);
+                https.set(&server.host, &server.notify_path(), Resp::ok(xml));
+            }
+            3 => {
+                let xml = server.snapshot_xml();
+                let n = xml.len() / 2;
+                https.set(&server.host, &server.snapshot_path(), Resp::ok(xml).drop_after(n));
+                for d in &server.deltas {
+                    https.set(&server.host, &server.delta_path(d.serial), Resp::status(404));
+                }
+            }
+            _ => {
+                https.clear_host(&server.host);
+            }
+        }
+    }
+
+    /// Starts a new RRDP session for repository `r` (same content): the next update needs the snapshot.
+    pub fn rrdp_new_session(&mut self, r: usize) {
+        if let (Some(https), Some(server)) = (self.https.as_ref(), self.rrdp.get_mut(&r)) {
+            server.new_session();
+            server.install(https);
+        }
     }
 
     /// A trust anchor certificate for root `ca` with another key and/or expired.
@@ -731,7 +875,7 @@ impl World {
         let sc = &self.sc;
         let key = if other_key { gen::N_CA_KEYS - 9 - (ca % 8) } else { sc.cas[ca].key };
         let val = if expired { gen::validity(self.now, -86400 * 30, -3600) } else { gen::validity(self.now, -86400, sc.cas[ca].not_after) };
-        gen::issue_ta(key, &cert_res(sc, ca), val, &ca_dir_uri(sc, ca), &mft_uri(sc, ca), None, 1)
+        gen::issue_ta(key, &cert_res(sc, ca), val, &ca_dir_uri(sc, ca), &mft_uri(sc, ca), ca_notify_uri(sc, ca).as_ref(), 1)
     }
 
     /// Damages what the fake server offers for one module (after `publish`).
@@ -794,7 +938,7 @@ impl World {
     }
 
     pub fn config(&self) -> Config {
-        config_for(&self.sc.cfg, &WorldPaths { conf: self.dir.path().join("routinator.conf"), cache: self.cache(), tals: self.dir.path().join("tals"), srv: self.srv(), rsync_log: self.rsync_log(), rsync_bin: self.rsync_bin.clone() })
+        config_for(&self.sc.cfg, &self.paths())
     }
 }
 
@@ -807,6 +951,9 @@ pub struct WorldPaths {
     pub srv: PathBuf,
     pub rsync_log: PathBuf,
     pub rsync_bin: PathBuf,
+    /// proxy URL of the world's HTTPS server; RRDP is enabled iff this is set (some CA uses RRDP)
+    #[serde(default)]
+    pub rrdp_proxy: Option<String>,
 }
 
 /// The configuration `World::config` uses, over explicit paths.
@@ -830,13 +977,28 @@ pub fn config_for(cfg: &Cfg, paths: &WorldPaths) -> Config {
         c.rsync_args = Some(vec![format!("--rv-root={}", paths.srv.display()), format!("--rv-log={}", paths.rsync_log.display())]);
         c.rsync_timeout = Some(std::time::Duration::from_secs(30));
         c.log_repository_issues = std::env::var_os("RV_LOG").is_some();
+        if let Some(proxy) = paths.rrdp_proxy.as_ref() {
+            // as httpsrv::client_config: every host name is reached through the harness listener
+            c.disable_rrdp = false;
+            c.rrdp_root_certs = vec![crate::httpsrv::tls_ca_path()];
+            c.rrdp_proxies = vec![proxy.clone()];
+            c.rrdp_timeout = Some(std::time::Duration::from_secs(60));
+            c.rrdp_connect_timeout = Some(std::time::Duration::from_secs(20));
+            c.rrdp_fallback = match cfg.rrdp_fallback {
+                0 => FallbackPolicy::Never,
+                1 => FallbackPolicy::Stale,
+                _ => FallbackPolicy::New,
+            };
+            // expiry of local RRDP copies is out of scope: a copy stays "current" for the whole case
+            c.rrdp_fallback_time = std::time::Duration::from_secs(86400);
+        }
         c
     }
 }
 
 impl World {
     pub fn paths(&self) -> WorldPaths {
-        WorldPaths { conf: self.dir.path().join("routinator.conf"), cache: self.cache(), tals: self.dir.path().join("tals"), srv: self.srv(), rsync_log: self.rsync_log(), rsync_bin: self.rsync_bin.clone() }
+        WorldPaths { conf: self.dir.path().join("routinator.conf"), cache: self.cache(), tals: self.dir.path().join("tals"), srv: self.srv(), rsync_log: self.rsync_log(), rsync_bin: self.rsync_bin.clone(), rrdp_proxy: self.https.as_ref().map(|h| h.proxy_url()) }
     }
 
     /// One engine run over the persistent cache.
@@ -899,6 +1061,31 @@ pub struct ModelState {
     pub ta_local: HashMap<(usize, usize), u8>,
     /// stored trust anchor certificate per (root, uri index): 0 good, 1 other key, 3 expired
     pub ta_store: HashMap<(usize, usize), u8>,
+    /// RRDP repositories with a local archive (left by a successful update, not yet cleaned up)
+    pub rrdp_local: BTreeSet<usize>,
+}
+
+/// What the RRDP collector reports for a repository in one run (`rrdp::LoadResult`; `Stale` cannot
+/// occur because local copies never expire within a case).
+#[derive(Clone, Copy, Debug, PartialEq, Eq, PartialOrd, Ord)]
+pub enum RrdpOutcome {
+    /// update succeeded: the archive equals what the server offers in this step
+    Updated,
+    /// update failed, a local copy exists: no transport for the CAs of the repository in this run
+    Current,
+    /// update failed, no local copy: rsync fallback unless the policy is `never`
+    Unavailable,
+}
+
+/// The transport a CA's publication point was collected through in one run.
+#[derive(Clone, Copy, Debug, PartialEq, Eq, PartialOrd, Ord)]
+pub enum Via {
+    Rsync,
+    Rrdp,
+    /// rsync because the RRDP repository was unavailable and the policy allows falling back
+    RsyncFallback,
+    /// no transport (offline run, RRDP failed with a current copy, or policy `never`)
+    Nothing,
 }
 
 #[derive(Clone, Debug, Default)]
@@ -916,6 +1103,12 @@ pub struct Expected {
     pub forbidden: BTreeMap<MItem, String>,
     /// smallest EE notAfter among contributing objects (seconds from now)
     pub refresh_min_leaf: Option<i64>,
+    /// outcome of the (single) update attempt per RRDP repository tried in this run
+    pub rrdp: BTreeMap<usize, RrdpOutcome>,
+    /// transport per attempted CA
+    pub via: BTreeMap<usize, Via>,
+    /// version the transport offered per attempted CA (absent = nothing collected)
+    pub fetched: BTreeMap<usize, usize>,
 }
 
 fn is_stale(off: i64) -> bool {
@@ -1056,15 +1249,65 @@ pub fn model_step(sc_in: &Scenario, step: &Step, state: &mut ModelState) -> Expe
                 continue;
             }
         }
-        // fetched view: the whole module is transferred once per run, when first needed
+        // fetched view. rsync: the whole module is transferred once per run, when first needed.
+        // RRDP (collector/base.rs Run::repository): the repository is updated once per run, when first
+        // needed; Updated => the archive is this step's content; failed with a local copy (Current) =>
+        // no transport at all; failed without one (Unavailable) => rsync unless the policy is `never`.
+        let mut via = Via::Nothing;
+        let mut rrdp_view: Option<usize> = None;
         if !step.offline {
-            attempt_module(sc, step, state, &mut attempted, ca.module);
+            match ca.rrdp {
+                None => {
+                    attempt_module(sc, step, state, &mut attempted, ca.module);
+                    via = Via::Rsync;
+                }
+                Some(r) => {
+                    let outcome = match exp.rrdp.get(&r) {
+                        Some(o) => *o,
+                        None => {
+                            let o = if !step.fail_rrdp.contains(&r) {
+                                state.rrdp_local.insert(r);
+                                RrdpOutcome::Updated
+                            } else if state.rrdp_local.contains(&r) {
+                                RrdpOutcome::Current
+                            } else {
+                                RrdpOutcome::Unavailable
+                            };
+                            exp.rrdp.insert(r, o);
+                            o
+                        }
+                    };
+                    match outcome {
+                        RrdpOutcome::Updated => {
+                            via = Via::Rrdp;
+                            if !ca.versions.is_empty() && !ca.sia_under_parent_mft {
+                                rrdp_view = Some(step.publish.get(i).copied().unwrap_or(0).min(ca.versions.len() - 1));
+                            }
+                        }
+                        RrdpOutcome::Current => {}
+                        RrdpOutcome::Unavailable => {
+                            if sc.cfg.rrdp_fallback != 0 {
+                                attempt_module(sc, step, state, &mut attempted, ca.module);
+                                via = Via::RsyncFallback;
+                            }
+                        }
+                    }
+                }
+            }
         }
+        exp.via.insert(i, via);
         if ca.versions.is_empty() {
             exp.rejected.insert(i);
             continue;
         }
-        let fetched = if step.offline { None } else { state.local.get(&i).copied() };
+        let fetched = match via {
+            Via::Nothing => None,
+            Via::Rrdp => rrdp_view,
+            Via::Rsync | Via::RsyncFallback => state.local.get(&i).copied(),
+        };
+        if let Some(f) = fetched {
+            exp.fetched.insert(i, f);
+        }
         let stored = state.stored.get(&i).copied();
         let mut used: Option<(usize, bool)> = None;
         if let Some(f) = fetched {
@@ -1145,15 +1388,26 @@ pub fn model_step(sc_in: &Scenario, step: &Step, state: &mut ModelState) -> Expe
     // cleanup of local rsync copies (only when a collector ran and the repository is not kept dirty):
     // a module copy survives if it was attempted in this run or a retained stored point lives in it.
     if !step.offline && !sc.cfg.dirty {
+        // (store.rs cleanup_points: a retained stored point registers its rpkiNotify URI if it has one,
+        // else its rsync module; rrdp/base.rs cleanup: plus every repository tried in this run)
         let mut keep: BTreeSet<usize> = attempted.clone();
+        let mut keep_rrdp: BTreeSet<usize> = exp.rrdp.keys().copied().collect();
         for (j, c) in sc.cas.iter().enumerate() {
             if state.stored.contains_key(&j) {
-                keep.insert(c.module);
+                match c.rrdp {
+                    None => {
+                        keep.insert(c.module);
+                    }
+                    Some(r) => {
+                        keep_rrdp.insert(r);
+                    }
+                }
             }
         }
         state.local.retain(|j, _| keep.contains(&sc.cas[*j].module));
         state.local_modules.retain(|m| keep.contains(m));
         state.ta_local.retain(|(c, u), _| keep.contains(&ta_location(sc, *c, *u).0));
+        state.rrdp_local.retain(|r| keep_rrdp.contains(r));
     }
     if !sc.cfg.dirty {
         // expired trust anchor certificates are removed from the store
@@ -1213,7 +1467,23 @@ pub struct StoredView {
 
 /// Path of the stored publication point of CA `ca` below the cache directory `cache`.
 pub fn stored_path_in(sc: &Scenario, cache: &Path, ca: usize) -> PathBuf {
-    cache.join("stored/rsync/rsync").join(host(sc.cas[ca].module)).join("repo").join(format!("ca{}/ca{}.mft", ca, ca))
+    match ca_notify_uri(sc, ca) {
+        None => cache.join("stored/rsync/rsync").join(host(sc.cas[ca].module)).join("repo").join(format!("ca{}/ca{}.mft", ca, ca)),
+        // a CA whose certificate carries rpkiNotify is stored below the repository of that URI, also when
+        // its data came over rsync (store.rs Run::pub_point); routinator's own path function
+        Some(notify) => {
+            let config = Config::default_with_paths(cache.join("routinator.conf"), cache.to_path_buf());
+            let store = routinator::store::Store::new(&config).expect("store");
+            store.verif_point_path(Some(&notify), &mft_uri(sc, ca))
+        }
+    }
+}
+
+/// Path of the local RRDP archive of repository `r` below the cache directory `cache`.
+pub fn rrdp_archive_path_in(cache: &Path, r: usize) -> PathBuf {
+    let mut config = Config::default_with_paths(cache.join("routinator.conf"), cache.to_path_buf());
+    config.disable_rrdp = false;
+    routinator::collector::verif::rrdp_repository_path(&config, &rrdp_notify_uri(r)).expect("rrdp repository path")
 }
 
 impl World {
